@@ -108,6 +108,7 @@ def cases(tier, seed):
     out.append({"id": "lens-point-counts", "kind": "lenscounts"})
     out.append({"id": "subset-forms", "kind": "subsetforms"})
     out.append({"id": "large-detector", "kind": "large"})
+    out.append({"id": "mielens-crops", "kind": "mlcrops"})
     # a detector so large / far that part of it is beyond kr = 1000: crops
     # and point lists that hold only distant pixels
     out.append({"id": "grid-far:mie", "kind": "gridfar"})
@@ -807,6 +808,42 @@ def _run_large(case, ck):
     return digest(*fps)
 
 
+def _run_mlcrops(case, ck):
+    """the analytic lens theory with its default options on a 100 x 100
+    image: every 16 x 16 crop, and the same pixels as a list of points, give
+    the values of the full image (the piecewise approximants of the pupil
+    integrals are laid out per call)"""
+    import holopy as hp
+    from holopy.scattering import Sphere, calc_holo, calc_field
+    from holopy.scattering.theory import MieLens
+    big = hp.detector_grid((100, 100), 0.1)
+    sph = Sphere(n=1.59, r=0.5, center=(5.0, 5.0, 8.0))
+    kw = dict(OPT)
+    with warnings.catch_warnings():
+        warnings.simplefilter("ignore")
+        B = calc_holo(big, sph, theory=MieLens(lens_angle=1.0), **kw)
+    ck.trans += 1
+    Bv = B.isel(z=0).transpose("x", "y").values if "z" in B.dims else \
+        B.transpose("x", "y").values
+    worst = 0.0
+    for i0, j0 in ((0, 0), (84, 84), (10, 60), (42, 42), (70, 5), (30, 84),
+                   (55, 20), (84, 40)):
+        crop = big.isel(x=slice(i0, i0 + 16), y=slice(j0, j0 + 16))
+        with warnings.catch_warnings():
+            warnings.simplefilter("ignore")
+            Cc = calc_holo(crop, sph, theory=MieLens(lens_angle=1.0), **kw)
+        ck.trans += 1
+        Cv = Cc.isel(z=0).transpose("x", "y").values if "z" in Cc.dims \
+            else Cc.transpose("x", "y").values
+        e = float(np.abs(Cv - Bv[i0:i0 + 16, j0:j0 + 16]).max())
+        worst = max(worst, e)
+        ck.true("crop-of-large-image", e <= 1e-10, "MieLens hologram of the "
+                "16x16 crop at pixel (%d, %d) of a 100x100 image differs "
+                "from those pixels of the full image by %.2e" % (i0, j0, e))
+    ck.metric("mielens-crops", worst)
+    return digest(fp_values(Bv[::7, ::7]))
+
+
 def _run_subsetforms(case, ck):
     """subsets of a volume (several z planes), of a subset, and of a list of
     points: distinct locations drawn from ALL of them, values and
@@ -899,7 +936,7 @@ def _run_subsetforms(case, ck):
 def run_case(case):
     ck = Checker()
     fp = {"grid": _run_grid, "scripted": _run_scripted,
-          "subsetforms": _run_subsetforms, "large": _run_large,
+          "subsetforms": _run_subsetforms, "large": _run_large, "mlcrops": _run_mlcrops,
           "mixedz": _run_mixedz, "biglarge": _run_biglarge,
           "gridfar": _run_gridfar, "lenscounts": _run_lenscounts,
           "coordforms": _run_coordforms,
